@@ -105,7 +105,7 @@ def reportD (dflt apd : Bool) (label : String) (w : World) (src : ClassSrc) : Js
     ("shallowClone", sigToJson (helperD .shallowClone s)),
     ("fromOtherClass", sigToJson (helperD .fromOtherClass s)),
     ("fromTrustedData", sigToJson (helperD .fromTrustedData s)),
-    ("runtime", sigToJson ⟨sigParamsD (Typedpy.sigOf w src), sigKwD dflt src⟩),
+    ("runtime", sigToJson ⟨sigParamsD (Typedpy.sigOf w src), sigKwD dflt w src⟩),
     ("required", strsToJson c.required),
     ("consts", strsToJson (c.constants.map (·.1))),
     ("fieldOrder", strsToJson (c.allFields.map (·.1))),
